@@ -65,7 +65,7 @@ Lemma Inv1_step lvl c s e s' : wf c = true -> Inv1 c s -> step lvl c s e = Some 
 Proof.
   intros W I Hs.
   pose proof (J_effect lvl c s e s' W (i_pend c s I) Hs) as HJ.
-  pose proof (R_effect lvl c s e s' W Hs) as HR.
+  pose proof (R_effect lvl c s e s' W (i_pend c s I) Hs) as HR.
   split.
   - (* pend_ok *)
     intros n y Hy. destruct (HR n) as [Hq _|_ B1 B2 B3 B4 _ _ _ _ _ _|_ A1 A2 A3 _ A4 _ _ _].
@@ -207,7 +207,7 @@ Lemma lk_step lvl c s e s' n : wf c = true -> Inv1 c s -> step lvl c s e = Some 
   n <> 0 -> j_sched (jc c n) = true -> lk s n -> lk s' n.
 Proof.
   intros W I1 Hs Hn Hsch L.
-  pose proof (R_effect lvl c s e s' W Hs n) as HR.
+  pose proof (R_effect lvl c s e s' W (i_pend c s I1) Hs n) as HR.
   destruct HR as [Hq Hqa|Hact B1 B2 B3 B4 _ _ _ _ _ _|Hact A1 A2 A3 Apost A4 A5 A6 A7].
   2:{ apply lk_of_post. apply B2. apply rootb_false. exact Hn. }
   2:{ apply lk_of_post. apply Apost. exact Hn. }
